@@ -43,6 +43,15 @@ Explorations over the real detectors (DESIGN §4 C14), all twin / differential o
 * ``equivx-<Detector>`` (round 4) -- container equivalence for numpy scalars, 0-dimensional ndarrays, tuples, nested
   lists / tuples and lists of arrays (``eqx_containers``).
 
+* ``readout-<Detector>`` (round 5) -- a read-out (every property / public attribute, every public argument-free method,
+  ``to_plotly_dataframe`` with and without arguments) called at any position of a valid history: the observables stay, later
+  valid calls (the next one in every container) are accepted and equal the never-read twin's, a malformed call right after
+  the read-out is refused without trace.
+* ``shared-<P>+<Q>`` (round 5) -- two detectors (same / different class, same / different width; streaming pairs, batch
+  pairs) with DIFFERENT established column names live in one process; the caller hands ONE frame (same object / same
+  columns Index / copy) to both, in both orders: the owner accepts, the other refuses without trace; each is judged by a
+  solo run of its own history in a pristine process state.
+
 Tasks: one per detector x parameter set x base history x default container x
 chunk of injection positions (``cfg["pos"]``); the alphabet offers the malformed
 calls only at those positions, a non-default container only to the two
@@ -1296,6 +1305,173 @@ class InjectShape(Inject):
         return self.ad.shape_faults(state["est"], state["D"])
 
 
+
+# ----------------------------------------------------------------------------
+# round 5: read-outs in the middle of a history
+# ----------------------------------------------------------------------------
+LABELS = ["height", "width", "depth"]  # plot labels: neither the names of the data (NAMES) nor those of the renamed faults
+_MUTATORS = ("update", "set_reference", "reset")
+_PLOT_ARGS = ("", "labels", "labels-index", "names", "other", "build-only", "depth1", "positional")
+
+
+def readout_menu(ad):
+    """[(name, argument id)]: "attributes" (every property and every public instance attribute is read) and every public
+    method of the detector's class other than update / set_reference / reset that can be called without arguments;
+    to_plotly_dataframe also with every argument set of ``_PLOT_ARGS``"""
+    import inspect
+    cls = ad.d.cls
+    out = [("attributes", "")]
+    for x in sorted(dir(cls)):
+        if x.startswith("_") or x in _MUTATORS or isinstance(inspect.getattr_static(cls, x), property):
+            continue
+        f = getattr(cls, x)
+        if not callable(f):
+            continue
+        if any(q.default is q.empty and q.kind in (q.POSITIONAL_ONLY, q.POSITIONAL_OR_KEYWORD)
+               for q in list(inspect.signature(f).parameters.values())[1:]):
+            continue
+        out += [(x, a) for a in (_PLOT_ARGS if x == "to_plotly_dataframe" else ("",))]
+    return out
+
+
+def readout_call(ad, det, name, arg):
+    import inspect
+    if name == "attributes":
+        for x in sorted(set(dir(type(det))) | set(vars(det))):
+            if x.startswith("_"):
+                continue
+            if x in vars(det) or isinstance(inspect.getattr_static(type(det), x, None), property):
+                repr(getattr(det, x, None))
+        return
+    w = ad.width or 1
+    args, kw = (), {}
+    if arg == "labels":
+        kw = {"input_cols": LABELS[:w]}
+    elif arg == "labels-index":
+        kw = {"input_cols": pd.Index(LABELS[:w])}
+    elif arg == "names":
+        kw = {"input_cols": NAMES[:w]}
+    elif arg == "other":
+        kw = {"input_cols": OTHER[:w]}
+    elif arg == "build-only":
+        kw = {"tree_id2": None}
+    elif arg == "depth1":
+        kw = {"max_depth": 1}
+    elif arg == "positional":
+        args = ("build", "test", 1, LABELS[:w])
+    elif arg:
+        raise HarnessError("unknown read-out argument set %r" % (arg,))
+    getattr(det, name)(*args, **kw)
+
+
+class ReadOut(Inject):
+    """``readout-<Detector>`` (round 5): a read-out (``readout_menu``) is called on D at any position of a valid history;
+    T, the twin, is never read.  Judged exactly like a rejected call: the read-out leaves the public observables alone,
+    every later valid call (the next one in every container) is accepted and gives T's observables bit-for-bit, and a
+    malformed call made right after the read-out is refused with ValueError without trace (``Inject._fault``)."""
+
+    family = "readout"
+
+    def __init__(self, ad):
+        self.ad = ad
+        self.name = "readout-" + ad.name
+
+    def site(self, kind, cont, state):
+        s = super().site(kind, cont, state)
+        return s if s == R2_BATCH or not state.get("readout") else "after-" + state["readout"] + ":" + s
+
+    def step(self, cfg, state, ev, pos, ctx):
+        if ev[0] == "r":
+            return self._readout(cfg, state, ev, ctx)
+        try:
+            return super().step(cfg, state, ev, pos, ctx)
+        except Violation as v:
+            if state.get("readout") and state.get("rd_only"):
+                raise Violation(v.sub, v.msg.replace("the rejected malformed call", "the read-out call")
+                                .replace("the malformed call", "the read-out call"), v.expected, v.observed, v.sig)
+            raise
+
+    def _fault(self, cfg, state, ev, ctx):
+        o = super()._fault(cfg, state, ev, ctx)
+        state["rd_only"] = False
+        if state.get("readout"):
+            ctx.count("readout_then_malformed_rejected")
+        return o
+
+    def _readout(self, cfg, state, ev, ctx):
+        ad = self.ad
+        _, name, arg = ev
+        D = state["D"]
+        before = ad.public(D)
+        self._seed(cfg, state, ctx)
+        what = "%s.%s(%s) after %d valid call(s)" % (ad.name, name, arg, state["k"])
+        try:
+            readout_call(ad, D, name, arg)
+            ctx.count("readout_returned")
+            ctx.count("readout_returned:%s" % name)
+        except HarnessError:
+            raise
+        except Exception:  # noqa: BLE001  a read-out before there is anything to read may raise; it must still leave no trace
+            ctx.count("readout_raised")
+        after = ad.public(D)
+        site = "readout:%s(%s)" % (name, arg)
+        if not _same(before, after):
+            bad = sorted(x for x in set(before) | set(after) if not _same(before.get(x), after.get(x)))
+            raise Violation(
+                "readout-changed-state", "the read-out %s changed the public observables %s" % (what, bad),
+                expected={x: before.get(x) for x in bad}, observed={x: after.get(x) for x in bad},
+                sig="readout-changed-state:" + site + ":" + ad.base)
+        ctx.mark("readout_calls")
+        ctx.count("readout_calls:" + ad.name)
+        ctx.count("readout_method:" + name)
+        if arg:
+            ctx.count("readout_args:" + arg)
+        ctx.count("readout_at_first_call" if state["k"] == 0 else "readout_at_end" if state["k"] == len(cfg["base"]) else "readout_in_middle")
+        if before["state"] == "drift":
+            ctx.count("readout_right_after_drift")
+        state["readout"] = site
+        state["rd_only"] = True
+        state["faulted"] = True  # from here on a difference between D and T is a verdict, not harness non-determinism
+        state["site"] = site
+        state["after"] = 0
+        return dict(after, readout=name)
+
+
+_ROWCOUNT_KINDS = ("two_rows", "one_row", "two_rows_other_width", "two_rows_renamed", "one_row_other_width", "one_row_renamed")
+
+
+def readout_paths(ad, cfg):
+    """every path of one readout-* task: base history in the default container c0; the read-out at every position
+    k = 0..L; then either the rest of the history with call k in every injection container, or every malformed call
+    that applies at that point followed by the rest of the history"""
+    base, c0 = cfg["base"], cfg["c0"]
+    L = len(base)
+    paths = []
+    for name, arg in cfg["readouts"]:
+        for k in range(L + 1):
+            head = [["v", base[i], c0] for i in range(k)] + [["r", name, arg]]
+            if k == L:
+                paths.append(head)
+                continue
+            for cn in ad.inj_containers:
+                paths.append(head + [["v", base[k], cn]] + [["v", base[i], c0] for i in range(k + 1, L)])
+            est = {"width": None, "names": None}
+            if k:
+                w, names = ad.establishes(base[0], c0)
+                est = {"width": w, "names": names}
+            for kind, c in ad.faults(est, None):
+                # the calls that are malformed whatever has been established (wrong number of rows) only as 2-D ndarray;
+                # the ones that are malformed relative to what the history established (width, names) in every container
+                if kind.split("@")[0] in _ROWCOUNT_KINDS and (c != "ndarray" or kind.split("@")[0] != _ROWCOUNT_KINDS[0 if ad.kind == "stream" else 1]):
+                    continue
+                paths.append(head + [["f", kind, c]] + [["v", base[i], c0] for i in range(k, L)])
+    return paths
+
+
+def readout_enum(task, seed):
+    return enum_paths(task, seed, readout_paths(SYSTEMS[task["system"]].ad, task["cfg"]))
+
+
 # ----------------------------------------------------------------------------
 # container equivalence
 # ----------------------------------------------------------------------------
@@ -1627,6 +1803,285 @@ def reuse_enum(task, seed):
     return {"stats": dict(st), "violations": violations, "samples": samples, "wall": time.time() - t0}
 
 
+def enum_paths(task, seed, paths):
+    """fn-task runner: every path of ``paths`` is executed from scratch (fresh objects, ``mc.procstate.reset()``) through
+    the task's System; a verdict must reproduce twice from scratch before it is reported"""
+    from mc import procstate
+    system = SYSTEMS[task["system"]]
+    cfg = task["cfg"]
+    ctx = Ctx(seed)
+    st = ctx.stats
+    violations, samples, per_sig = [], [], Counter()
+    t0 = time.time()
+    for events in paths:
+        procstate.reset()
+        state = system.init(cfg)
+        obs, marks, done = None, 0, []
+        for pos, ev in enumerate(events):
+            done.append(ev)
+            ctx.terminal = False
+            ctx.marks = 0
+            try:
+                obs = system.step(cfg, state, ev, pos, ctx)
+            except Violation as v:
+                st["violations_raw"] += 1
+                st["sig:" + str(v.sig)] += 1
+                per_sig[v.sig] += 1
+                if per_sig[v.sig] <= 3:
+                    for _ in range(2):
+                        _, v2 = run_path(system, cfg, done, seed)
+                        if v2 is None or (v2.sub, v2.msg) != (v.sub, v.msg):
+                            raise HarnessError("HARNESS-NONDET: violation %r on %s cfg=%r events=%r did not reproduce from scratch: %r"
+                                               % ((v.sub, v.msg), system.name, cfg, done, None if v2 is None else (v2.sub, v2.msg)))
+                    violations.append(artefact(PROPERTY, system, cfg, seed, done, v))
+                break
+            st["transitions"] += 1
+            st["states"] += 1
+            marks += 1 if ctx.marks else 0
+            if ctx.terminal:
+                st["terminal_states"] += 1
+                break
+        st["executions"] += 1
+        if marks:
+            st["nontrivial_executions"] += 1
+        if len(samples) < 1 or (marks and len(samples) < 2):
+            samples.append({"system": system.name, "cfg": jsonable(cfg), "events": jsonable(done),
+                            "last_obs": jsonable(obs), "nontrivial_events": marks})
+    return {"stats": dict(st), "violations": violations, "samples": samples, "wall": time.time() - t0}
+
+
+# ----------------------------------------------------------------------------
+# round 5: two detectors in one process, the caller hands ONE frame object to both
+# ----------------------------------------------------------------------------
+SHARE_VARIANTS = ("same-frame", "same-columns-index", "copy")
+
+
+class Shared(System):
+    """``shared-<P>+<Q>``: detector P (column names NAMES) and detector Q (column names OTHER) live in one process and
+    are fed their own valid histories as DataFrames, alternately.  At one position the caller holds ONE frame -- the next
+    valid input of the owner -- and hands it to both detectors, owner first or owner second: the owner must accept it, the
+    other one (which has established other names, possibly another width) must refuse it with ValueError without
+    trace.  Each detector is judged by the trace of a solo run of its own valid history in a pristine process state."""
+
+    def __init__(self, adp, adq):
+        self.ads = {"p": adp, "q": adq}
+        self.name = "shared-%s+%s" % (adp.name, adq.name)
+
+    def _names(self, role):
+        return (NAMES if role == "p" else OTHER)[: self.ads[role].width]
+
+    def _frame(self, role, sym, idx=None):
+        ad = self.ads[role]
+        return pd.DataFrame(np.array(ad.arr(sym), dtype=float), columns=self._names(role) if idx is None else idx)
+
+    def _apply(self, role, det, sym, X):
+        ad = self.ads[role]
+        if ad.is_ref(sym):
+            det.set_reference(X)
+        else:
+            det.update(X)
+
+    def _solo(self, cfg, role, seed):
+        from mc import procstate
+        ad = self.ads[role]
+        procstate.reset()
+        rng.seed_step(0, self.name, cfg["id"], "init", role)
+        R = ad.make(cfg["params"][role])
+        out = []
+        for i, sym in enumerate(cfg["hist"][role]):
+            if ad.stochastic:
+                rng.seed_step(seed, ad.name, role, i)
+            try:
+                self._apply(role, R, sym, self._frame(role, sym))
+            except Exception as e:  # noqa: BLE001
+                if ad.domain_error(e):
+                    out.append({"domain_error": True})
+                    break
+                raise Violation(
+                    "valid-call-rejected", "%s alone in the process: valid call #%d (DataFrame) raised %r" % (ad.name, i, e),
+                    expected="accepted", observed=repr(e), sig="valid-call-rejected:%s:DataFrame:%s" % (ad.name, type(e).__name__))
+            out.append(ad.public(R))
+        return out
+
+    def init(self, cfg):
+        return {"ref": None, "det": None, "k": {"p": 0, "q": 0}, "pending": {"p": False, "q": False}, "site": None}
+
+    def _start(self, cfg, state, seed):
+        from mc import procstate
+        state["ref"] = {r: self._solo(cfg, r, seed) for r in ("p", "q")}
+        procstate.reset()
+        state["det"] = {}
+        for r in ("p", "q"):
+            rng.seed_step(0, self.name, cfg["id"], "init", r)
+            state["det"][r] = self.ads[r].make(cfg["params"][r])
+
+    def alphabet(self, cfg, state, pos):
+        return []
+
+    def step(self, cfg, state, ev, pos, ctx):
+        if state["ref"] is None:
+            self._start(cfg, state, ctx.seed)
+        if ev[0] == "v":
+            role = ev[1]
+            sym = cfg["hist"][role][state["k"][role]]
+            return self._accepted(cfg, state, role, self._frame(role, sym), ctx, "its own frame")
+        _, owner, order, variant = ev
+        other = "q" if owner == "p" else "p"
+        sym = cfg["hist"][owner][state["k"][owner]]
+        idx = pd.Index(self._names(owner))
+        F = self._frame(owner, sym, idx)
+        G = F if variant == "same-frame" else F.copy() if variant == "copy" else self._frame(owner, sym, idx)
+        if variant == "same-columns-index" and F.columns is not G.columns:
+            ctx.count("shared_index_not_kept_by_pandas")
+        first, second = (owner, other) if order == "owner-first" else (other, owner)
+        obs = {}
+        for role, X in ((first, F), (second, G)):
+            if role == owner:
+                obs[role] = self._accepted(cfg, state, role, X, ctx, "the caller's frame (%s, %s)" % (order, variant))
+            else:
+                obs[role] = self._refused(cfg, state, role, owner, sym, X, ctx, order, variant)
+            if ctx.terminal:
+                break
+        ctx.mark("shared_frames_handed_to_both")
+        ctx.count("shared_order:" + order)
+        ctx.count("shared_variant:" + variant)
+        ctx.count("shared_pair_kind:%s" % ("same-class" if self.ads["p"].name == self.ads["q"].name else "different-class"))
+        ctx.count("shared_width:%s" % ("same" if self.ads["p"].width == self.ads["q"].width else "different"))
+        ctx.count("shared:" + self.ads[owner].name + "->" + self.ads[other].name)
+        return obs
+
+    def _accepted(self, cfg, state, role, X, ctx, how):
+        ad = self.ads[role]
+        k = state["k"][role]
+        sym = cfg["hist"][role][k]
+        exp = state["ref"][role][k]
+        D = state["det"][role]
+        partner = self.ads["q" if role == "p" else "p"].name
+        what = "%s (detector %s of the pair %s, names %s): valid call #%d (%s) with %s" % (
+            ad.name, role.upper(), self.name, self._names(role), k, "set_reference" if ad.is_ref(sym) else "update", how)
+        if ad.stochastic:
+            rng.seed_step(ctx.seed, ad.name, role, k)
+        site = state["site"] or "no-shared-frame-yet"
+        try:
+            self._apply(role, D, sym, X)
+        except Exception as e:  # noqa: BLE001
+            if exp.get("domain_error") and ad.domain_error(e):
+                ctx.terminal = True
+                ctx.count("agreed_domain_error:" + ad.name)
+                return {"domain_error": True}
+            raise Violation(
+                "shared-valid-rejected", "%s raised %r; alone in the process the same history is accepted (partner: %s)" % (what, e, partner),
+                expected="accepted", observed=repr(e), sig="shared-valid-rejected:%s:%s" % (ad.base, site))
+        od = ad.public(D)
+        if state["pending"][role] and not ad.is_ref(sym):
+            state["pending"][role] = False
+        if state["pending"][role] and not exp.get("domain_error"):
+            exp = ad.mask_pending(od, exp, True)
+        if exp.get("domain_error") or not _same(od, exp):
+            bad = sorted(x for x in set(od) | set(exp) if not _same(od.get(x), exp.get(x)))
+            raise Violation(
+                "shared-differs", "%s: observables %s differ from the solo run of the same history in a pristine process (partner: %s)" % (what, bad, partner),
+                expected={x: exp.get(x) for x in bad}, observed={x: od.get(x) for x in bad},
+                sig="shared-differs:%s:%s" % (ad.base, site))
+        state["k"][role] = k + 1
+        ctx.count("shared_compared_steps")
+        ctx.count("shared_steps:" + ad.name)
+        if state["site"]:
+            ctx.count("shared_later_compared")
+        if od["state"] == "drift":
+            ctx.count("shared_drift_steps")
+        return od
+
+    def _refused(self, cfg, state, role, owner, sym, X, ctx, order, variant):
+        ad, ado = self.ads[role], self.ads[owner]
+        D = state["det"][role]
+        k = state["k"][role]
+        method = "set_reference" if ado.is_ref(sym) else "update"
+        site = "foreign-frame/%s/%s/%s:%s" % (method, order, variant, ad.base)
+        before = ad.public(D)
+        if ad.stochastic:
+            rng.seed_step(ctx.seed, ad.name, role, k)
+        exc = None
+        try:
+            getattr(D, method)(X)
+        except Exception as e:  # noqa: BLE001
+            exc = e
+        try:
+            after = ad.public(D)
+        except Exception as e:  # noqa: BLE001
+            after = {"unobservable": repr(e)}
+        ctxt = ("%s (detector %s of the pair %s, established names %s after %d valid call(s)): %s with the caller's frame (names %s, "
+                "%d column(s)) that %s %s (%s)" % (ad.name, role.upper(), self.name, self._names(role), k, method, list(X.columns), X.shape[1],
+                                                  ado.name, "had just accepted" if order == "owner-first" else "accepts next", variant))
+        moved = {x: [before.get(x), after.get(x)] for x in ("total", "since", "state") if before.get(x) != after.get(x)}
+        if exc is None:
+            raise Violation("malformed-accepted", "%s was accepted (no exception)%s" % (ctxt, "; counters/state moved: %s" % moved if moved else ""),
+                            expected="ValueError", observed={"exception": None, "moved": moved}, sig="malformed-accepted:" + site)
+        if not isinstance(exc, ValueError):
+            raise Violation("malformed-wrong-exception", "%s raised %s instead of ValueError: %s" % (ctxt, type(exc).__name__, str(exc)[:120]),
+                            expected="ValueError", observed={"exception": repr(exc)[:200], "moved": moved},
+                            sig="malformed-raised-%s:%s" % (type(exc).__name__, site))
+        pending = before["state"] == "drift"
+        if after.get("total") != before["total"] and not pending:
+            raise Violation("rejected-call-counted", "%s raised ValueError but was counted: %s" % (ctxt, moved),
+                            expected=before, observed=after, sig="rejected-call-counted:" + site)
+        if not _same(after, before):
+            if pending:
+                ctx.count("rejections_that_performed_pending_reset")
+                state["pending"][role] = True
+            else:
+                bad = sorted(x for x in set(before) | set(after) if not _same(before.get(x), after.get(x)))
+                raise Violation("rejected-call-changed-state", "%s raised ValueError but changed the public observables %s" % (ctxt, bad),
+                                expected={x: before.get(x) for x in bad}, observed={x: after.get(x) for x in bad},
+                                sig="rejected-call-changed-state:" + site)
+        state["site"] = site
+        ctx.count("shared_rejections")
+        ctx.count("shared_rejections:" + ad.name)
+        ctx.count("shared_method:" + method)
+        if pending:
+            ctx.count("shared_rejected_right_after_drift")
+        return dict(after, rejected="foreign-frame")
+
+
+def shared_paths(cfg):
+    """both histories in lock-step (p0 q0 p1 q1 ...); at every position j >= 1 of either owner the owner's call j is the
+    caller's frame handed to both, in both orders, in every sharing variant"""
+    L = {r: len(cfg["hist"][r]) for r in ("p", "q")}
+    n = max(L.values())
+    paths = []
+    for owner in ("p", "q"):
+        for j in range(1, L[owner]):
+            for order in ("owner-first", "other-first"):
+                for variant in SHARE_VARIANTS:
+                    evs = []
+                    for i in range(n):
+                        for r in ("p", "q"):
+                            if i >= L[r]:
+                                continue
+                            evs.append(["x", owner, order, variant] if (r == owner and i == j) else ["v", r])
+                    paths.append(evs)
+    return paths
+
+
+def shared_enum(task, seed):
+    return enum_paths(task, seed, shared_paths(task["cfg"]))
+
+
+def shared_pairs():
+    """ordered pairs (P, Q), P = Q included, of the detectors of one kind that validate X: streaming x streaming, batch x batch"""
+    out = []
+    for kind in ("stream", "batch"):
+        ns = [n for n, a in ADAPTERS.items() if a.kind == kind and a.width is not None and n != "MD3"]
+        out += [(a, b) for a in ns for b in ns]
+    return out
+
+
+def shared_hist(ad, tier, second):
+    bs = ad.bases(tier)
+    h = list(bs[-1] if second else bs[0])
+    return h[: (5 if tier == "quick" else 7)]
+
+
 SYSTEMS = {}
 for _a in ADAPTERS.values():
     SYSTEMS["inject-" + _a.name] = Inject(_a)
@@ -1637,6 +2092,11 @@ for _a in ADAPTERS.values():
     if _a.name != "MD3":
         SYSTEMS["inject-shape-" + _a.name] = InjectShape(_a)
         SYSTEMS["equivx-" + _a.name] = EquivX(_a)
+for _a in ADAPTERS.values():
+    if _a.name != "MD3":
+        SYSTEMS["readout-" + _a.name] = ReadOut(_a)
+for _pq in shared_pairs():
+    SYSTEMS["shared-%s+%s" % _pq] = Shared(ADAPTERS[_pq[0]], ADAPTERS[_pq[1]])
 for _a in ENSEMBLES.values():
     SYSTEMS["inject-" + _a.name] = Inject(_a)
     if _a.kind == "stream":
@@ -1813,7 +2273,41 @@ def tasks(tier, seed):
         _inject_tasks(name, ad, tier, out)
         if name in shaped(tier):
             _inject_tasks(name, ad, tier, out, shape=True)
+    # round 5: readout-* (one task per detector x parameter set x default container x read-out)
+    for name, ad in ADAPTERS.items():
+        if "readout-" + name not in SYSTEMS:
+            continue
+        for pi, p in enumerate(_params(ad, tier)):
+            for c0 in readout_defaults(ad):
+                for ri, r in enumerate(readout_menu(ad)):
+                    base = readout_base(ad, tier)
+                    out.append({
+                        "system": "readout-" + name,
+                        "cfg": {"id": pi, "params": p, "base": base, "c0": c0, "readouts": [list(r)]},
+                        "fn": "readout_enum",
+                        "label": "readout-%s|%d|%s|%s(%s)" % (name, pi, c0, r[0], r[1]),
+                        "cost": SLOW.get(name, 1) * len(base) * 3,
+                    })
+    # round 5: shared-* (one task per ordered pair of detectors)
+    for a, b in shared_pairs():
+        ada, adb = ADAPTERS[a], ADAPTERS[b]
+        out.append({
+            "system": "shared-%s+%s" % (a, b),
+            "cfg": {"id": 0, "params": {"p": _params(ada, tier)[0], "q": _params(adb, tier)[-1 if tier == "thorough" else 0]},
+                    "hist": {"p": shared_hist(ada, tier, False), "q": shared_hist(adb, tier, True)}},
+            "fn": "shared_enum",
+            "label": "shared-%s+%s" % (a, b),
+            "cost": (SLOW.get(a, 1) + SLOW.get(b, 1)) * 5,
+        })
     return out
+
+
+def readout_defaults(ad):
+    return ("ndarray", "DataFrame") if ad.width is not None else ("ndarray",)
+
+
+def readout_base(ad, tier):
+    return list(ad.bases(tier)[0])[: (6 if tier == "quick" else 8)]
 
 
 _DRIFTERS = [n for n in ADAPTERS]
@@ -1876,6 +2370,19 @@ def REQUIRED(tier):
         + ["equivx_compared_steps", "equivx_noncanonical_calls", "equivx_drift_steps"]
         + ["equivx_container:" + c for c in ("npscalar", "nd0", "tuple", "list2", "tuple2", "list.of-nd")]
         + ["equivx_drift_steps:" + n for n in ("CUSUM", "PageHinkley", "ADWIN", "DDM")]
+        # round 5 (which read-outs are made, which frames are handed to both detectors and which calls are compared is
+        # decided by the histories, not by random draws)
+        + ["readout_calls", "readout_returned", "readout_at_first_call", "readout_in_middle", "readout_at_end",
+           "readout_then_malformed_rejected", "readout_rejections"]
+        + ["readout_method:" + m for m in ("attributes", "to_plotly_dataframe", "to_dataframe", "mean", "variance", "recent_accuracy")]
+        + ["readout_args:" + a for a in _PLOT_ARGS if a]
+        + ["readout_calls:" + n for n in ADAPTERS if n != "MD3"]
+        + ["readout_later_compared:" + n for n in ADAPTERS if n != "MD3"]
+        + ["shared_frames_handed_to_both", "shared_rejections", "shared_later_compared", "shared_compared_steps", "shared_drift_steps",
+           "shared_method:update", "shared_method:set_reference", "shared_pair_kind:same-class", "shared_pair_kind:different-class",
+           "shared_width:same", "shared_width:different", "shared_order:owner-first", "shared_order:other-first"]
+        + ["shared_variant:" + v for v in SHARE_VARIANTS]
+        + ["shared_rejections:" + n for n in sorted({x for pq in shared_pairs() for x in pq})]
     )
 
 
@@ -1898,8 +2405,28 @@ def describe(tier):
         "2 x 2 block, empty; list, tuple, 1-D / 2-D / 3-D ndarray, Series, DataFrame) x every position x containers of "
         "the two valid neighbours from bounds.shape_neighbours; base histories: prefix length bounds.shape_prefix; "
         "equivx-* (round 4): every assignment of bounds.equivx_containers (numpy scalar, 0-dimensional ndarray, tuple, "
-        "nested list / tuple, list of arrays) to the positions of the equivalence histories, against the all-2-D-ndarray run",
+        "nested list / tuple, list of arrays) to the positions of the equivalence histories, against the all-2-D-ndarray run; "
+        "readout-* (round 5): per detector (all but MD3 and the ensembles), parameter set and default container (2-D ndarray; DataFrame "
+        "too where X is validated): the first base history (bounds.readout_history) x ONE read-out of bounds.readouts at every "
+        "position 0..L x { the next valid call in every injection container, rest in the default container | every malformed "
+        "call whose status depends on what the history established (width, names: every container) and one row-count fault "
+        "(2-D ndarray) right after the read-out, then the rest of the history }, every path executed from scratch; "
+        "shared-* (round 5): every ordered pair (P, Q), P = Q included, of the streaming detectors that validate X and of the "
+        "batch detectors (bounds.shared_pairs); P is fed its history as DataFrames named a,b.., Q its own as DataFrames named "
+        "x,y.., alternately (p0 q0 p1 q1 ...); at every position j >= 1 of either owner the caller's ONE frame (the owner's "
+        "valid input j, passed through the owner's method: update or set_reference) is handed to both detectors, owner first / "
+        "owner second, as the same DataFrame object / two frames over one columns Index object / frame and frame.copy(); "
+        "every path executed from scratch after mc.procstate.reset()",
         "bounds": {
+            "readouts": {n: ["%s(%s)" % r for r in readout_menu(a)] for n, a in ADAPTERS.items() if "readout-" + n in SYSTEMS},
+            "readout_history": {n: readout_base(a, tier) for n, a in ADAPTERS.items() if "readout-" + n in SYSTEMS},
+            "readout_plot_arguments": {"labels": "input_cols=['height','width'..] (list)", "labels-index": "the same as pandas Index",
+                                       "names": "input_cols = the data's column names a,b..", "other": "input_cols = x,y.. (the names of the 'renamed' malformed calls)",
+                                       "build-only": "tree_id2=None", "depth1": "max_depth=1", "positional": "('build','test',1,labels)"},
+            "shared_pairs": ["%s+%s" % pq for pq in shared_pairs()],
+            "shared_histories": {n: [shared_hist(ADAPTERS[n], tier, False), shared_hist(ADAPTERS[n], tier, True)]
+                                 for n in sorted({x for pq in shared_pairs() for x in pq})},
+            "shared_variants": list(SHARE_VARIANTS),
             "shape_prefix": {n: shape_prefix(a, tier) for n, a in shaped(tier).items()},
             "shape_neighbours": {n: shape_nb(n, a, tier) for n, a in shaped(tier).items()},
             "shape_faults": {
@@ -1936,8 +2463,24 @@ def describe(tier):
         "outputs of later accepted calls, which is why the histories keep a ConfirmedElection inside waiting periods). "
         "reuse-*: the observation trace must equal, bit-for-bit, that of the run that passes the same values in fresh "
         "2-D ndarrays of the same dtype (the dtype itself is not the subject: float32 arithmetic may legitimately "
-        "differ from float64).",
+        "differ from float64). "
+        "readout-*: T, the twin, is never read; a read-out must leave D's public observables as they are, every later valid "
+        "call must be accepted and give T's observables bit-for-bit, and the malformed call after it is judged as in inject-* "
+        "(signatures readout-changed-state:*, later-*:readout:<method>(<args>), *:after-readout:<method>(<args>):<site>). "
+        "shared-*: the owner must accept the caller's frame, the other detector must refuse it with ValueError, uncounted and "
+        "without a change of its observables; every accepted call of either detector is compared bit-for-bit with the trace "
+        "of a solo run of that detector's own history, made alone in a pristine process state (mc.procstate.reset()) "
+        "(signatures malformed-accepted:foreign-frame/<method>/<order>/<variant>:<base>, shared-valid-rejected:*, shared-differs:*).",
         "assumptions": [
+            "readout-*: a read-out that raises (to_plotly_dataframe before a tree exists, with either argument set) is not judged "
+            "for raising (counted readout_raised) but must leave no trace like any other; read-outs = every property and public "
+            "instance attribute read, every public method other than update / set_reference / reset callable without "
+            "arguments, to_plotly_dataframe with the listed argument sets (tree ids other than 'build' / 'test' are not passed); "
+            "MD3 and the ensembles have no readout-* family",
+            "shared-*: only pairs of the same kind (a one-row frame is malformed for every batch detector and a batch for every "
+            "streaming detector by the row-count rule alone); both detectors are fed DataFrames throughout (a detector that has "
+            "only seen bare arrays has no names established: a foreign-named frame of its width is then a valid first frame); "
+            "the detectors that read labels only (DDM, EDDM, STEPD, ADWINAccuracy, LinearFourRates) do not validate X and are not paired",
             "a malformed call made while drift_state == 'drift' may perform the detector's pending post-drift "
             "re-initialisation before it is rejected (most update() methods reset first and validate second); the "
             "snapshot right after such a rejection is not judged (counted as rejections_that_performed_pending_reset), "
